@@ -688,8 +688,29 @@ func (u *Unit) havocClass(st *State, m string, ct *Contract, env *SpecEnv) {
 		case "H":
 			u.writeEvent(st, "H:"+elemKey(elem))
 		case "hdr":
-			u.writeEvent(st, "dlen:"+elemKey(elem))
+			// the callee may write the header of the object its clause names
+			wrote := false
+			if ae, err := parseSpec(arg); err == nil {
+				if _, isType := u.specType(env, ae); !isType {
+					if v := u.evalSpec(env, ae); (v.K == KBuf || v.K == KPtrData) && v.Term != nil {
+						u.hdrWriteEvent(st, "dlen:"+elemKey(elem), elem, v.Term)
+						wrote = true
+					}
+				}
+			}
+			if !wrote {
+				u.writeEvent(st, "dlen:"+elemKey(elem))
+			}
+		case "newhdr":
+			// the callee writes only headers of objects it allocates: no write to shared state, but the
+			// header class changes, which the caller's frame has to allow
+			if !u.declaresClass("hdr", elemKey(elem)) && !u.declaresClass("newhdr", elemKey(elem)) {
+				u.writeEvent(st, "dlen:"+elemKey(elem))
+			}
 		}
+	}
+	if cls == "newhdr" {
+		cls = "hdr"
 	}
 	switch cls {
 	case "H":
@@ -1110,6 +1131,9 @@ func (u *Unit) loopModKinds(nodes ...ast.Node) map[string]bool {
 								cls := m
 								if i := indexByte(m, '('); i >= 0 {
 									cls = m[:i]
+								}
+								if cls == "newhdr" {
+									cls = "hdr"
 								}
 								kinds[cls] = true
 							}
